@@ -108,6 +108,16 @@ CHECKS = {
              "after perturbing data that must not matter and compared bitwise.",
         ref="DESIGN.md §5 C07",
     ),
+    "C14": dict(
+        technique="runtime monitoring: NumPy reference oracle on every call of the "
+                  "real (jitted) update functions, driven directly and rebound "
+                  "inside the real training loops on a tabular scripted "
+                  "environment; bitwise check of all untouched entries; empirical "
+                  "model recomputed from the environment log",
+        text="Exploration over tables, transitions and histories (ties, "
+             "terminated transitions, repeated visits, stochastic successors).",
+        ref="DESIGN.md §5 C14",
+    ),
 }
 
 NOT_YET = {}
